@@ -355,6 +355,15 @@ def oracleOp (st : St) (op : List String) (ret : String) (raw stv : AList CaStat
        | "err" :: _ :: lbl :: _ =>
          if r.optFailure == some lbl then [] else ["status_is_last_exchange:reposync-err"]
        | _ => [])
+    | ["repoprobe", ca] =>
+      -- the check of a new, unreachable publication server: the failed probe is the most recent attempt
+      if !(truthHasCa st.prev ca) then [] else
+      let r := (viewOf raw ca).repo
+      (match rp with
+       | "err" :: _ =>
+         -- the call returns the wrapping error (`ca-repo-issue`), the status shows the error of the exchange itself
+         if r.optFailure.isSome then [] else ["status_is_last_exchange:repoprobe-err"]
+       | _ => [])
     | ["rfc6492", p, c, _, agent] =>
       let agentO := if agent == "-" then none else some agent
       match truthChild st.prev p c with
@@ -480,6 +489,19 @@ def directCandidates (st : St) (op : List String) (ret : String) (raw : AList Ca
               if before.isNone then "publisher-unknown-delta-refused" else "delta-refused"),
             ([.repoList ca uri (.error lbl) t], "list-refused")]
     | _ => some [([], "premature")]
+  | ["repoprobe", ca] =>
+    -- `update_repo` with `check_repo`: one list query to the NEW server (its URI is taken from the observation); refused:
+    -- the failure is recorded, the CA keeps its repository
+    if !(truthHasCa st.prev ca) then some [([], "no-such-ca")] else
+    let o := (viewOf raw ca).repo
+    let t := (o.lastExchange.map (·.time)).getD 0
+    let u := (o.lastExchange.map (·.uri)).getD ""
+    (match rp with
+     | "err" :: _ =>
+       -- the label of the exchange's own error is taken from the observation (the call returns a wrapping error)
+       let lbl := (o.optFailure).getD "?"
+       some [([.repoList ca u (.error lbl) t], "probe-refused")]
+     | _ => some [([], "probe-not-refused")])
   | ["rfc6492", p, c, _, agent] =>
     -- `CaManager::rfc6492` refuses remote requests to the trust anchor and to unknown CAs outright
     if !(truthHasCa st.prev p) || p == "ta" then some [([], "no-such-parent")] else
